@@ -246,9 +246,8 @@ func (pi *partIter) findBlock() bool {
 				return false
 			}
 			if shouldSkip {
-				if !pi.nextSeriesID() {
-					return false
-				}
+				// only this block cannot match; later blocks of the same series still can
+				bhs = bhs[1:]
 				continue
 			}
 		}
